@@ -338,6 +338,8 @@ static void gen_pool(int maxpool)
 					flip_bit(&a, b);
 			break;
 		}
+		if (noncanon && vh_chance(50))
+			len = vh_rn(4); /* short prefixes: several records of one length share their leading bits and differ in host bits only */
 		mask_addr(&a, len);
 		int variants = 1 + vh_rn(noncanon ? 7 : 3);
 
